@@ -68,6 +68,9 @@ MUT = {
     Y + 'interior_node::move_children_to_interior_range': ('children', True),
     Y + 'interior_node::swap_child': ('children', False), Y + 'interior_node::insert': ('children', False),
     Y + 'interior_node::init_interior': ('children', True),
+    # reads that are only meaningful under the node lock (@pre of the functions: "Caller must lock this node")
+    Y + 'border_node::compute_rank_if_insert': ('locked-read', False),
+    Y + 'border_node::get_lv_of_without_lock': ('locked-read', False),
     # version bits
     Y + 'base_node::set_version_inserting_deleting': ('bits', False), Y + 'base_node::set_version_splitting': ('bits', False),
     Y + 'base_node::set_version_deleted': ('bits', False), Y + 'base_node::set_version_border': ('bits', False),
